@@ -47,10 +47,13 @@ kq = z3.Const('k!q', Obj)
 def build_listen(reg, only_echo=False):
     def listen_setup(eng, st):
         mk_nc(st)
+        st.ghost['verifying_listen'] = lift(True)
 
     def listen_post(s, r):
         if 'msg_id' not in s._cur:
-            return VBool(True)          # at call sites only the frame effect (listen_effect) is used
+            # at call sites only the frame effect (listen_effect) is used; in _listen itself a normal return without a received frame
+            # means a frame (possibly the response of a pending call) was swallowed or nothing was read
+            return VBool('verifying_listen' not in s.st.ghost)
         st, old = s.st, s.old
         pr = PR(old, s.self)
         mid, msg = s._cur['msg_id'], s._cur['msg']
@@ -157,13 +160,18 @@ def build(reg, src):
             st.ghost['registered_at_send'] = VList(st.ghost['registered_at_send'].items + [VBool(has(st, pr, mid))])
         if 'sent_frames' in st.ghost:
             st.ghost['sent_frames'] = VList(st.ghost['sent_frames'].items + [VTuple([s.msg_id, s.msg])])
+        if 'registered_at_send' in st.ghost and s.has('writer'):
+            st.ghost['send_writer'] = s.writer
     reg.fns[IPC + 'stream_send_msg'].ghost_at_call = note_send
 
     def call_post(s, r):
         regs = s.st.ghost['registered_at_send'].items
         sent = s.st.ghost['sent_frames'].items
+        w_used = s.st.ghost.get('send_writer')
         return And(VBool(len(regs) == 1 and len(sent) == 1), regs[0] if regs else VBool(False),
-                   same(sent[0].items[1], s._entry['msg']) if sent else VBool(False))
+                   same(sent[0].items[1], s._entry['msg']) if sent else VBool(False),
+                   # on the writer the listener owns (reset to None when the listener exits: a call after the loss then fails at once)
+                   same(w_used, s.old.field(s.self, 'writer')) if w_used is not None else VBool(False))
     reg.fn(NC + 'call', setup=call_setup, returns='opaque', ensures=[call_post])
     reg.fn(NC + 'is_open', returns=Bool, verify=False, raises=[])
     reg.externals['uuid.uuid4'] = lambda e, st, a, k, n: [(st, VOpaque(hint='msg_id', nonnull=True))]
@@ -184,9 +192,17 @@ def build(reg, src):
         st.ghost['completions'] = lift(0)
         st.ghost['loop_failed'] = lift(False)
     once = lambda s, *a: And(s.g('completions') <= 1, Or(s.g('completions') == 1, s.g('loop_failed')))
-    reg.fn(IPC + 'execute_server_command', setup=esc_setup, returns=None, ensures=[once], ensures_exc=[once])
+
+    def replies_with_the_result(s, *a):
+        # the value handed to set_result is what the evaluation produced (or a function reference / None), not something derived from it:
+        # the reply must have the structure of the remote value (a one-element list stays a list)
+        v = s.st.ghost.get('completed_with')
+        return VBool(not (isinstance(v, VOpaque) and str(v.t).startswith('derived-from-result')))
+    reg.fn(IPC + 'execute_server_command', setup=esc_setup, returns=None, ensures=[once, replies_with_the_result], ensures_exc=[once])
     reg.assumptions.append("execute_server_command: traceback.print_exception, logging.error and constructing KlongException do not raise; "
                            "call_soon_threadsafe(f.set_result/set_exception, v) completes the future unless it raises itself")
+
+    reg.extra_checks.append(lambda ctx: reply_is_the_result_rows(src))
 
     from replay import c14 as rp
     reg.replays.append((r'_run', rp.replay_run_cleanup))
@@ -200,6 +216,49 @@ def havoc_nc(st):
     st.ghost['has'] = cm.VArr(z3.Store(st.ghost['has'].t, pr, z3.Const(fresh_name('pending_row'), z3.ArraySort(Obj, Bool))))
     st.setfield(nc, 'reader', VOpaque(hint='reader'))
     st.setfield(nc, 'writer', VOpaque(hint='writer'))
+
+
+def reply_is_the_result_rows(src):
+    """(AST-structural) in execute_server_command the variable handed to set_result is only ever assigned the outcome of the evaluation
+    itself or one of the documented conversions (function -> KGRemoteFnRef, wrapper -> its function, dictionary-set -> None): the reply
+    has the structure of the remote value (a one-element list stays a list, a 0-d value stays what the interpreter produced)"""
+    import ast as _ast
+    key = IPC + 'execute_server_command'
+    fn = src.find(key)
+    name = key + '#reply-is-the-evaluation-result'
+    if fn is None:
+        return [dict(name=name, ok=False, undecided=True, backend='ast-structural', detail='function not found')]
+    var = None
+    for n in _ast.walk(fn):
+        if isinstance(n, _ast.Call) and isinstance(n.func, _ast.Attribute) and n.func.attr == 'call_soon_threadsafe' and len(n.args) == 2 \
+                and isinstance(n.args[0], _ast.Attribute) and n.args[0].attr == 'set_result' and isinstance(n.args[1], _ast.Name):
+            var = n.args[1].id
+    if var is None:
+        return [dict(name=name, ok=False, undecided=True, backend='ast-structural', detail='no set_result(<variable>) found')]
+    bad = []
+    for n in _ast.walk(fn):
+        tg = n.targets if isinstance(n, _ast.Assign) else [n.target] if isinstance(n, (_ast.AugAssign, _ast.AnnAssign)) else []
+        if not any(isinstance(t, _ast.Name) and t.id == var for t in tg):
+            continue
+        v = n.value
+        ok = (isinstance(v, _ast.Constant) and v.value is None) or \
+             (isinstance(v, _ast.Call) and isinstance(v.func, _ast.Name) and v.func.id in ('r', 'klong', 'KGRemoteFnRef')) or \
+             (isinstance(v, _ast.Subscript) and isinstance(v.value, _ast.Name) and v.value.id == 'klong') or \
+             (isinstance(v, _ast.Attribute) and isinstance(v.value, _ast.Name) and v.value.id == var and v.attr == 'fn')
+        if isinstance(n, _ast.AugAssign) or not ok:
+            bad.append(f"line {n.lineno}: {_ast.unparse(n)[:80]}")
+    rows = [dict(name=name, ok=not bad, backend='ast-structural', confirmed=False,
+                 detail=('; '.join(bad[:3]) + ' - the reply is computed FROM the evaluation result, it is not the result') if bad
+                 else f"`{var}` is only assigned the evaluation outcome or a documented conversion")]
+    if bad:
+        from pyvc.run import run_replay
+        import replay.c13 as rp13
+        rr = run_replay(rp13.replay_remote_values, {}, name, timeout_s=120)
+        rows[0]['confirmed'] = bool(rr.get('confirmed'))
+        rows[0]['replay'] = dict(result=rr)
+        if rr.get('confirmed'):
+            rows[0]['detail'] += f" | real code: {rr.get('detail')}"
+    return rows
 
 
 REGIONS = {}
@@ -227,7 +286,13 @@ def configure(eng):
             s2 = st.fork()
             s2.ghost['loop_failed'] = lift(True)            # the event loop refused the callback (closed): outside the function's control
             st.ghost['completions'] = st.ghost['completions'] + 1
+            if node.args[0].attr == 'set_result' and len(args) > 1:
+                st.ghost['completed_with'] = args[1]
             return [(st, NONE), e.exc(s2, '<any>', node)]
+        if 'completions' in st.ghost and isinstance(obj, VOpaque) and str(obj.t).split('!')[0] in ('item', 'r') \
+                and name not in ('get_arity',):
+            # a value computed FROM the evaluation result by some method (response.item(), response.tolist(), ...): not the result itself
+            return [(st, VOpaque(hint='derived-from-result'))] + e.maybe_raise(st, name, node)
         if name == 'values':
             return [(st, VTuple(['values-of', obj]))]
         if name == 'connect' and 'connects' in st.ghost:
